@@ -2,7 +2,7 @@ package main
 
 // Which harnesses decide which property, with which bounds, per tier.
 
-var c01ids = []string{"no-panic", "string-no-marker", "gostring-no-marker"}
+var c01ids = []string{"no-panic", "string-no-marker", "gostring-no-marker", "terminates-within-budget"}
 var c10ids = []string{"parse-xor", "validates", "shape", "render-xor", "param-error-empty"}
 
 func withOnly(rs []hrun, only []string, panics bool) []hrun {
@@ -15,14 +15,22 @@ func withOnly(rs []hrun, only []string, panics bool) []hrun {
 	return out
 }
 
-const nContexts = 21
+const nContexts = 23
 
 func ctxRuns(thorough bool) []hrun {
 	var r []hrun
 	for df := 0; df <= 1; df++ {
 		for c := 0; c < nContexts; c++ {
+			if c >= 21 { // contexts with two and three holes: reduced shape alphabet unless thorough
+				if thorough {
+					r = append(r, hrun{Harness: "ParseCtx", Params: P("CTX", c, "S", 1, "DF", df)})
+				} else if df == 0 {
+					r = append(r, hrun{Harness: "ParseCtx", Params: P("CTX", c, "S", 1, "DF", df, "SHAPES", 1)})
+				}
+				continue
+			}
 			r = append(r, hrun{Harness: "ParseCtx", Params: P("CTX", c, "S", 1, "DF", df)})
-			if (df == 0 || thorough) && c != 2 { // context 2 has two holes: S=2 would be four free slots
+			if (df == 0 || thorough) && c != 2 && c < 21 { // contexts with several holes only get one slot per hole
 				r = append(r, hrun{Harness: "ParseCtx", Params: P("CTX", c, "S", 2, "DF", df)})
 			}
 		}
@@ -41,11 +49,71 @@ func deriveRuns(thorough bool) []hrun {
 			r = append(r, hrun{Harness: "DeriveTokens", Params: P("K", k, "DF", df)})
 		}
 		for c := 0; c < nContexts; c++ {
+			if c >= 21 {
+				if thorough {
+					r = append(r, hrun{Harness: "DeriveCtx", Params: P("CTX", c, "S", 1, "DF", df)})
+				} else if df == 0 {
+					r = append(r, hrun{Harness: "DeriveCtx", Params: P("CTX", c, "S", 1, "DF", df, "SHAPES", 1)})
+				}
+				continue
+			}
 			r = append(r, hrun{Harness: "DeriveCtx", Params: P("CTX", c, "S", 1, "DF", df)})
-			if (df == 0 || thorough) && c != 2 {
+			if (df == 0 || thorough) && c != 2 && c < 21 {
 				r = append(r, hrun{Harness: "DeriveCtx", Params: P("CTX", c, "S", 2, "DF", df)})
 			}
 		}
+	}
+	return r
+}
+
+var c02ids = []string{"inline-confined", "inline-columns-are-query-fields", "inline-strings-are-query-values", "param-confined",
+	"param-columns-are-query-fields", "ident-confined", "ident-is-the-name", "ident-nonempty", "ident-param-confined", "ident-param-is-the-name", "ident-same-outcome"}
+var c03ids = []string{"fragment-renders", "sql-means-query", "inline-numbers-are-query-values"}
+var c04ids = []string{"inline-ok-implies-param-ok", "param-count", "param-no-inline-values", "param-values-in-order", "param-substitution-equals-inline",
+	"param-means-inline", "same-outcome-for-same-kinds", "sql-text-independent-of-values", "param-count-independent-of-values"}
+
+const nSQLForms = 28
+
+func sqlRuns(thorough bool, concrete int) []hrun {
+	var r []hrun
+	for f := 0; f < nSQLForms; f++ {
+		r = append(r, hrun{Harness: "SQLLeaf", Params: P("FORM", f, "CONCRETE", concrete)})
+	}
+	r = append(r, hrun{Harness: "SQLTree", Params: P("D", 1, "LEAVES", 1)})
+	r = append(r, hrun{Harness: "SQLTree", Params: P("D", 2, "LEAVES", 0)})
+	if thorough {
+		r = append(r, hrun{Harness: "SQLTree", Params: P("D", 2, "LEAVES", 1)})
+	}
+	return r
+}
+
+func identRuns(thorough bool) []hrun {
+	r := []hrun{
+		{Harness: "IdentConfined", Params: P("MODE", 0, "UNITS", 1)}, {Harness: "IdentConfined", Params: P("MODE", 0, "UNITS", 2)},
+		{Harness: "IdentConfined", Params: P("MODE", 1, "UNITS", 0)}, {Harness: "IdentConfined", Params: P("MODE", 1, "UNITS", 1)}, {Harness: "IdentConfined", Params: P("MODE", 1, "UNITS", 2)},
+	}
+	if thorough {
+		r = append(r, hrun{Harness: "IdentConfined", Params: P("MODE", 0, "UNITS", 3)}, hrun{Harness: "IdentConfined", Params: P("MODE", 1, "UNITS", 3)})
+	}
+	return r
+}
+
+func indepRuns(thorough bool) []hrun {
+	var r []hrun
+	for f := 0; f < nSQLForms; f++ {
+		r = append(r, hrun{Harness: "ParamIndependent", Params: P("D", 0, "FORM", f)})
+	}
+	r = append(r, hrun{Harness: "ParamIndependent", Params: P("D", 1, "FORM", 0)})
+	if thorough {
+		r = append(r, hrun{Harness: "ParamIndependent", Params: P("D", 2, "FORM", 0)})
+	}
+	return r
+}
+
+func chainRuns() []hrun {
+	var r []hrun
+	for sh := 0; sh < 8; sh++ {
+		r = append(r, hrun{Harness: "ParseChain", Params: P("N", 32, "SHAPE", sh)})
 	}
 	return r
 }
@@ -74,10 +142,28 @@ func parseRuns(thorough bool) []hrun {
 
 var props = map[string]propCfg{
 	"C01": {
-		Quick:    withOnly(append(parseRuns(false), ctxRuns(false)...), c01ids, true),
-		Thorough: withOnly(append(parseRuns(true), ctxRuns(true)...), c01ids, true),
+		Quick:    withOnly(append(append(parseRuns(false), ctxRuns(false)...), chainRuns()...), c01ids, true),
+		Thorough: withOnly(append(append(parseRuns(true), ctxRuns(true)...), chainRuns()...), c01ids, true),
 		Bounds:   "all byte strings of length <= 3 (quick) / <= 4 (thorough); one token with every literal content of <= 3 bytes; token sequences of <= 2 (quick) / <= 3 (thorough) tokens over 20 token shapes with symbolic literal bytes; with and without a default field; consumers String, %#v, Render, RenderParam",
 		Outside:  "longer inputs; asymptotic running time; symbolic decimal floats (cut); JSON encoding (see C12)",
+	},
+	"C02": {
+		Quick:    withOnly(append(sqlRuns(false, 0), identRuns(false)...), c02ids, false),
+		Thorough: withOnly(append(sqlRuns(true, 0), identRuns(true)...), c02ids, false),
+		Bounds:   "every leaf form of the renderable language (28 forms: equality, comparisons, inclusive/exclusive/open ranges over ints, strings and floats, lists, wildcards, regexps, quoted strings, NaN/Inf) with symbolic field names and values; boolean trees of depth <= 2 over them; field names carrying arbitrary bytes through escapes (<= 2/3 units) or quoted phrases (<= 2/3 bytes, all 256 values); inline and parameterized",
+		Outside:  "identifiers longer than 63 bytes; values longer than the hole widths; PostgreSQL settings other than standard_conforming_strings=on; the SQL fragment is parsed by a model of PostgreSQL's grammar (validated against pg_query natively)",
+	},
+	"C03": {
+		Quick:    withOnly(sqlRuns(false, 1), c03ids, false),
+		Thorough: withOnly(sqlRuns(true, 1), c03ids, false),
+		Bounds:   "every leaf form of the filterable fragment with symbolic constants (1-2 digit integers, 2-byte strings, 2-3 byte patterns) and a symbolic row value of the matching type (integers -3..103, strings of 0-3 printable bytes); boolean trees (AND OR NOT + -) of depth <= 2 over integer and string leaves with one symbolic row value per field",
+		Outside:  "NULLs; collations other than bytewise; floats other than the listed constants; regexp meaning; SIMILAR TO patterns containing regex metacharacters; deeper trees",
+	},
+	"C04": {
+		Quick:    withOnly(append(sqlRuns(false, 1), indepRuns(false)...), c04ids, false),
+		Thorough: withOnly(append(sqlRuns(true, 1), indepRuns(true)...), c04ids, false),
+		Bounds:   "as C03, plus two independent instances of the same query shape (2-safety) for every leaf form and for trees of depth 1 (quick) / 2 (thorough)",
+		Outside:  "value kinds other than int, string, the listed floats; deeper trees",
 	},
 	"C05": {
 		Quick: []hrun{
@@ -106,8 +192,8 @@ var props = map[string]propCfg{
 		Outside:  "longer sequences; literal contents outside the narrow shape classes (typed values of arbitrary words are covered by C08 and the K=1 wide slot of C01)",
 	},
 	"C07": {
-		Quick:    []hrun{{Harness: "TreeJuxtapose", Params: P("D", 2, "LEAVES", 0), InfoOnly: []string{"juxt-accepted"}}, {Harness: "TreeJuxtapose", Params: P("D", 1, "LEAVES", 1), InfoOnly: []string{"juxt-accepted"}}},
-		Thorough: []hrun{{Harness: "TreeJuxtapose", Params: P("D", 2, "LEAVES", 0), InfoOnly: []string{"juxt-accepted"}}, {Harness: "TreeJuxtapose", Params: P("D", 1, "LEAVES", 1), InfoOnly: []string{"juxt-accepted"}}, {Harness: "TreeJuxtapose", Params: P("D", 2, "LEAVES", 2), InfoOnly: []string{"juxt-accepted"}}},
+		Quick:    []hrun{{Harness: "TreeJuxtapose", Params: P("D", 2, "LEAVES", 0), InfoOnly: []string{"juxt-accepted"}}, {Harness: "TreeJuxtapose", Params: P("D", 1, "LEAVES", 1), InfoOnly: []string{"juxt-accepted"}}, {Harness: "TreeJuxtapose", Params: P("D", 3, "LEAVES", 3, "OPS", 1), InfoOnly: []string{"juxt-accepted"}}},
+		Thorough: []hrun{{Harness: "TreeJuxtapose", Params: P("D", 2, "LEAVES", 0), InfoOnly: []string{"juxt-accepted"}}, {Harness: "TreeJuxtapose", Params: P("D", 1, "LEAVES", 1), InfoOnly: []string{"juxt-accepted"}}, {Harness: "TreeJuxtapose", Params: P("D", 3, "LEAVES", 3, "OPS", 1), InfoOnly: []string{"juxt-accepted"}}, {Harness: "TreeJuxtapose", Params: P("D", 3, "LEAVES", 3, "OPS", 2), InfoOnly: []string{"juxt-accepted"}}, {Harness: "TreeJuxtapose", Params: P("D", 2, "LEAVES", 2), InfoOnly: []string{"juxt-accepted"}}},
 		Bounds:   "all trees as in C05 that contain an AND node, each AND node in turn written as juxtaposition; both texts parsed by the real parser",
 		Outside:  "several gaps at once; deeper trees; a juxtaposition the parser rejects is informational (eligibility is defined by the parser accepting the text)",
 	},
@@ -115,8 +201,12 @@ var props = map[string]propCfg{
 		Quick: []hrun{
 			{Harness: "TreeLayout", Params: P("D", 1, "LEAVES", 1, "VARIANT", 0)}, {Harness: "TreeLayout", Params: P("D", 1, "LEAVES", 1, "VARIANT", 1)}, {Harness: "TreeLayout", Params: P("D", 1, "LEAVES", 1, "VARIANT", 2)},
 			{Harness: "TreeLayout", Params: P("D", 2, "LEAVES", 0, "VARIANT", 0)}, {Harness: "TreeLayout", Params: P("D", 2, "LEAVES", 0, "VARIANT", 1)},
+			{Harness: "TreeLayout", Params: P("D", 1, "LEAVES", 1, "VARIANT", 3)},
+			{Harness: "LayoutTokens", Params: P("K", 2, "DF", 0)}, {Harness: "LayoutTokens", Params: P("K", 3, "DF", 0, "SHAPES", 1)},
 		},
 		Thorough: []hrun{
+			{Harness: "TreeLayout", Params: P("D", 1, "LEAVES", 1, "VARIANT", 3)}, {Harness: "TreeLayout", Params: P("D", 2, "LEAVES", 0, "VARIANT", 3)},
+			{Harness: "LayoutTokens", Params: P("K", 2, "DF", 0)}, {Harness: "LayoutTokens", Params: P("K", 2, "DF", 1)}, {Harness: "LayoutTokens", Params: P("K", 3, "DF", 0)}, {Harness: "LayoutTokens", Params: P("K", 4, "DF", 0, "SHAPES", 1)},
 			{Harness: "TreeLayout", Params: P("D", 1, "LEAVES", 1, "VARIANT", 0)}, {Harness: "TreeLayout", Params: P("D", 1, "LEAVES", 1, "VARIANT", 1)}, {Harness: "TreeLayout", Params: P("D", 1, "LEAVES", 1, "VARIANT", 2)},
 			{Harness: "TreeLayout", Params: P("D", 2, "LEAVES", 0, "VARIANT", 0)}, {Harness: "TreeLayout", Params: P("D", 2, "LEAVES", 0, "VARIANT", 1)}, {Harness: "TreeLayout", Params: P("D", 2, "LEAVES", 0, "VARIANT", 2)},
 		},
@@ -127,8 +217,10 @@ var props = map[string]propCfg{
 		Quick: []hrun{
 			{Harness: "TreeDefaultField", Params: P("D", 1, "LEAVES", 1, "DFKIND", 0)}, {Harness: "TreeDefaultField", Params: P("D", 1, "LEAVES", 1, "DFKIND", 1)},
 			{Harness: "TreeDefaultField", Params: P("D", 2, "LEAVES", 0, "DFKIND", 0)},
+			{Harness: "TreeDefaultField", Params: P("D", 1, "LEAVES", 1, "DFKIND", 0, "VARIANT", 1)},
 		},
 		Thorough: []hrun{
+			{Harness: "TreeDefaultField", Params: P("D", 1, "LEAVES", 1, "DFKIND", 0, "VARIANT", 1)}, {Harness: "TreeDefaultField", Params: P("D", 2, "LEAVES", 0, "DFKIND", 0, "VARIANT", 1)},
 			{Harness: "TreeDefaultField", Params: P("D", 1, "LEAVES", 1, "DFKIND", 0)}, {Harness: "TreeDefaultField", Params: P("D", 1, "LEAVES", 1, "DFKIND", 1)},
 			{Harness: "TreeDefaultField", Params: P("D", 2, "LEAVES", 0, "DFKIND", 0)}, {Harness: "TreeDefaultField", Params: P("D", 2, "LEAVES", 2, "DFKIND", 0)},
 		},
@@ -176,8 +268,8 @@ var props = map[string]propCfg{
 		Outside: "maps with more than one entry removed; render functions with side effects on the tree; trees not reachable from Parse",
 	},
 	"C16": {
-		Quick:    []hrun{{Harness: "LexSegment", Params: P("N", 0)}, {Harness: "LexSegment", Params: P("N", 1)}, {Harness: "LexSegment", Params: P("N", 2)}, {Harness: "LexSegment", Params: P("N", 3)}},
-		Thorough: []hrun{{Harness: "LexSegment", Params: P("N", 0)}, {Harness: "LexSegment", Params: P("N", 1)}, {Harness: "LexSegment", Params: P("N", 2)}, {Harness: "LexSegment", Params: P("N", 3)}, {Harness: "LexSegment", Params: P("N", 4)}},
+		Quick:    withOnly([]hrun{{Harness: "LexSegment", Params: P("N", 0)}, {Harness: "LexSegment", Params: P("N", 1)}, {Harness: "LexSegment", Params: P("N", 2)}, {Harness: "LexSegment", Params: P("N", 3)}}, nil, true),
+		Thorough: withOnly([]hrun{{Harness: "LexSegment", Params: P("N", 0)}, {Harness: "LexSegment", Params: P("N", 1)}, {Harness: "LexSegment", Params: P("N", 2)}, {Harness: "LexSegment", Params: P("N", 3)}, {Harness: "LexSegment", Params: P("N", 4)}}, nil, true),
 		Bounds:   "all byte strings (all 256 values per byte) of length <= 3 (quick) / <= 4 (thorough); every Peek/Next step up to N+2 tokens",
 		Outside:  "inputs longer than the bound",
 	},
